@@ -22,13 +22,40 @@ def isinstance_arms(fn: FunctionInfo, param: str):
     """
     arms = []
     rest: List[ast.stmt] = []
+    tpvars = set()  # locals bound to type(param): `tp = type(value)` followed by `tp in (A, B)` / `tp is A`
+
+    def is_type_of_param(e):
+        return (isinstance(e, ast.Name) and e.id in tpvars) or (
+            isinstance(e, ast.Call) and isinstance(e.func, ast.Name) and e.func.id == "type" and len(e.args) == 1
+            and isinstance(e.args[0], ast.Name) and e.args[0].id == param)
+
+    def exact_type_names(test):
+        from sa.absint import _class_names
+        if isinstance(test, ast.Compare) and len(test.ops) == 1 and is_type_of_param(test.left):
+            c = test.comparators[0]
+            if isinstance(test.ops[0], (ast.Is, ast.Eq)):
+                return _class_names(c)
+            if isinstance(test.ops[0], ast.In):
+                if isinstance(c, ast.Name):
+                    vals = getattr(fn.module, "assigns", {}).get(c.id, [])
+                    if len(vals) != 1:
+                        return None
+                    c = vals[0]
+                if isinstance(c, (ast.Tuple, ast.List, ast.Set)):
+                    return _class_names(ast.Tuple(elts=list(c.elts), ctx=ast.Load()))
+        return None
 
     def rec(stmts):
         for i, st in enumerate(stmts):
             if isinstance(st, ast.Expr) and isinstance(st.value, ast.Constant):
                 continue
+            if isinstance(st, ast.Assign) and len(st.targets) == 1 and isinstance(st.targets[0], ast.Name) and is_type_of_param(st.value) and not arms:
+                tpvars.add(st.targets[0].id)
+                continue
             if isinstance(st, ast.If):
                 names = _isinstance_names(st.test, param)
+                if names is None:
+                    names = exact_type_names(st.test)
                 if names is not None:
                     arms.append((names, st.body, st))
                     if st.orelse:
@@ -541,3 +568,90 @@ def loop_var_after_loop_rule(an: Analysis, rep, rule: str, entries):
                                 f"`{v}` is only bound by the loop over `{norm_src(lp.iter)[:50]}`; when that is empty (a CodeData without instructions - what from_code returns for an empty co_code) "
                                 f"the read at line {first_use.lineno} raises UnboundLocalError instead of encoding an empty table", config=entry)
     rep.add(rule, "reads of loop variables after their loop examined", True, "code_data/", f"{n} in the closures of {list(entries)}", nontrivial=False)
+
+
+def rejection_sites(an: Analysis, entries):
+    """Every `raise` / `assert` in the closures of the entries, with the conditions of the enclosing `if`s (function-local names replaced by
+    v0, v1, ... in order of appearance, so renaming a local does not change the key): [(function, stmt, exception name, conditions)]."""
+    from .encode_model import parent_map
+    out = []
+    seen = set()
+    for entry in entries:
+        for f in an.closure(entry):
+            if f.qual in seen or not isinstance(f.node, (ast.FunctionDef, ast.AsyncFunctionDef)):
+                continue
+            seen.add(f.qual)
+            pm = parent_map(f.module)
+            a = f.node.args
+            local = {x.arg for x in a.posonlyargs + a.args + a.kwonlyargs} | {n.id for n in ast.walk(f.node) if isinstance(n, ast.Name) and isinstance(n.ctx, ast.Store)}
+            if a.vararg:
+                local.add(a.vararg.arg)
+            if a.kwarg:
+                local.add(a.kwarg.arg)
+            for st in ast.walk(f.node):
+                if not isinstance(st, (ast.Raise, ast.Assert)):
+                    continue
+                conds = []
+                cur = st
+                inner_fn = False
+                while cur is not f.node:
+                    par = pm[id(cur)]
+                    if isinstance(par, (ast.FunctionDef, ast.AsyncFunctionDef, ast.Lambda)) and par is not f.node:
+                        inner_fn = True
+                        break
+                    if isinstance(par, ast.If):
+                        if any(cur is x for x in par.body):
+                            conds.append((True, par.test))
+                        elif any(cur is x for x in par.orelse):
+                            conds.append((False, par.test))
+                    cur = par
+                if inner_fn:
+                    continue  # belongs to a nested function, which is listed on its own when it is reached
+                conds.reverse()
+                if isinstance(st, ast.Assert):
+                    conds.append((False, st.test))
+                ren = {}
+
+                class R(ast.NodeTransformer):
+                    def visit_Name(self, n):
+                        if n.id in local:
+                            ren.setdefault(n.id, f"v{len(ren)}")
+                            return ast.copy_location(ast.Name(id=ren[n.id], ctx=n.ctx), n)
+                        return n
+                import copy
+                texts = []
+                for pol, t in conds:
+                    t2 = R().visit(copy.deepcopy(t))
+                    texts.append(norm_src(t2) if pol else f"not ({norm_src(t2)})")
+                if isinstance(st, ast.Assert):
+                    exc = "assert"
+                elif st.exc is None:
+                    exc = "re-raise"
+                else:
+                    exc = norm_src(st.exc.func) if isinstance(st.exc, ast.Call) else norm_src(st.exc)
+                out.append((f, st, exc, tuple(texts)))
+    return out
+
+
+def rejection_paths_rule(an: Analysis, rep, rule: str, entries, table, what: str):
+    """A function that must succeed on every input of its domain can stop only at the places confirmed by reading: `table` maps
+    (function, exception) -> (number of such places, why the domain cannot reach them / which rule decides that it can).  The conditions
+    are not frozen (rewording a guard is no event here - the rules named in the table decide the guards); a `raise` / `assert` beyond the confirmed
+    ones is a new rejection path: whether valid input reaches it is not decided here, and the analysis says so (exit 2) instead of passing."""
+    rep.rule(rule, f"every place where {what} can stop with an exception is one confirmed by reading", max(1, len(table) - 2))
+    groups = {}
+    for f, st, exc, conds in rejection_sites(an, entries):
+        groups.setdefault((f.qual, exc), []).append((f, st, conds))
+    unknown = []
+    for key, sites in sorted(groups.items()):
+        n, why = table.get(key, (0, ""))
+        f, st, conds = sites[0]
+        if len(sites) <= n:
+            rep.add(rule, f"{key[0]}::{key[1]}", True, loc(f.module, st), f"{len(sites)} place(s): {why}", nontrivial=False)
+        else:
+            unknown.append((key, sites, n))
+    if unknown:
+        key, sites, n = unknown[0]
+        listing = " | ".join(f"line {st.lineno} under [{'; '.join(conds)[:110] or 'fall-through'}]" for f, st, conds in sites)
+        raise AnalysisError(f"{key[0]}: {len(sites)} place(s) where {what} stops with {key[1]}, {n} confirmed by reading ({listing}): "
+                            f"whether valid input can reach the new one is not decided" + (f" (+{len(unknown) - 1} more function(s))" if len(unknown) > 1 else ""))
